@@ -256,6 +256,7 @@ def generate_source_code(docstring, parsed):
 
         visited_names = set()
         more_imports = []
+        inherited_rules = []
 
         for rule in rules:
             if hasattr(rule, 'name'):
@@ -270,7 +271,13 @@ def generate_source_code(docstring, parsed):
                     impl_name = ex.implementation_name(stmt.name)
                     out += Code(f'_ctx.{impl_name} = _super_ctx.{impl_name}')
                     visited_names.add(stmt.name)
-                    more_imports.append(stmt.name)
+                    if isinstance(stmt, parser.RuleDef):
+                        # An inherited rule gets an entry point of its own, so
+                        # that parsing with it sees this grammar's overrides.
+                        more_imports.append(f'{stmt.name} as _inherited_{stmt.name}')
+                        inherited_rules.append(stmt.name)
+                    else:
+                        more_imports.append(stmt.name)
             ancestor = ancestor.extends
 
         if parsed.extends is not None:
@@ -285,6 +292,19 @@ def generate_source_code(docstring, parsed):
             out.append_global(Code(
                 f'from {parsed.extends.name} import (\n    {lines}\n)'
             ))
+
+        for name in inherited_rules:
+            entry_name = f'_parse_{name}'
+            impl_name = ex.implementation_name(name)
+            with out.global_section():
+                with out.DEF(entry_name, ['text', 'pos=0', 'fullparse=True']):
+                    out.RETURN(Code(
+                        f'_run(_ctx, text, pos, _ctx.{impl_name}, fullparse)'
+                    ))
+                out += Code(
+                    f'{name} = ParsingRule({name!r}, {entry_name},'
+                    f' _inherited_{name}.definition)'
+                )
 
     return out
 
